@@ -497,7 +497,7 @@ def items_misc(tier, seed):
 
 # --------------------------------------------------------------------------- E-BFS over histories
 OPKIND = {"hop": "hop_channel", "ch": "channel-assign", "exit": "with-exit", "enter": "with-enter",
-          "foreign_rf24": "foreign-with", "foreign_ble": "foreign-ble-with", "adv": "advertise"}
+          "foreign_rf24": "foreign-with", "foreign_ble": "foreign-ble-with", "adv": "advertise", "name": "name-assign", "pa": "show_pa_level-assign"}
 PROBE_NAME = b"nRF"
 
 
@@ -526,7 +526,7 @@ def hist_init(seed, variant):
 def hist_alphabet(st):
     ops = ["hop", ["ch", 2], ["ch", 26], ["ch", 80], ["ch", 5]]
     if st[5]["inside"]:
-        ops += ["exit", "adv"]
+        ops += ["exit", "adv", ["name", 6], ["name", 0], ["pa", 1], ["pa", 0]]
     else:
         ops += ["enter", "foreign_rf24", "foreign_ble"]
     return ops
@@ -589,6 +589,26 @@ def hist_probe(st, seed):
         fails.append(("exception:%s:probe" % type(e).__name__, "entering / configuring raised %r" % e))
         return fails, None
     r = advertise_and_judge(w, drv, radio, seed, fails)
+    # second probe: the object's CURRENT optional fields (nothing assigned by the probe)
+    w2, drv2, radio2, _f1, _f2, meta2 = copy.deepcopy(st)
+    w2.activate()
+    try:
+        if not meta2["inside"]:
+            drv2.__enter__()
+        nm, show = drv2.name, bool(drv2.show_pa_level)
+        free = CAPACITY - (0 if nm is None else len(nm) + 2) - (3 if show else 0)
+        la = drv2.len_available()
+        if la != free:
+            fails.append(("len_available", "len_available() is %r with name %r and show_pa_level %r: %d bytes are free" % (la, nm, show, free)))
+        hyp = drv2.len_available(b"\x00" * 4)
+        if hyp != free - 4:
+            fails.append(("len_available-hypothetical", "len_available(4 bytes) is %r, expected %d" % (hyp, free - 4)))
+    except (HarnessError, Abort):
+        raise
+    except Exception as e:  # noqa
+        fails.append(("exception:%s:probe" % type(e).__name__, "len_available() raised %r" % e))
+        return fails, r
+    advertise_and_judge(w2, drv2, radio2, seed, fails, "advertise-current-config")
     return fails, r
 
 
@@ -625,6 +645,10 @@ def hist_apply_op(st, op, seed, fails, pkt_fails):
                 advertise_and_judge(w, f2, radio, seed + 1, fails, "foreign-advertise", pkt_fails)
         elif name == "adv":
             advertise_and_judge(w, drv, radio, seed, fails, pkt_fails=pkt_fails)
+        elif name == "name":
+            drv.name = (b"abcdefgh"[:op[1]] if op[1] else None)
+        elif name == "pa":
+            drv.show_pa_level = bool(op[1])
         else:
             raise HarnessError("unknown op %r" % (op,))
     except (HarnessError, Abort):
@@ -680,10 +704,62 @@ def w_history(item, rep):
     rep.part("history", **{"depth_completed_" + variant: done})
 
 
+# --------------------------------------------------------------------------- repeated advertisements
+def w_repeat(item, rep):
+    """the usual 37/38/39 loop: the SAME list / tuple of chunks (bytearrays from chunk(), bytes) is
+    advertised again and again with a hop in between; every packet must carry the caller's chunks
+    verbatim and the caller's objects must not change"""
+    _, seed = item
+    for container in (list, tuple):
+        for kinds in (("ba", "ba"), ("ba", "by"), ("by", "ba"), ("ba", "ba", "ba"), ("ba",)):
+            w, drv, radio = copy.deepcopy(base_pack(seed))
+            w.activate()
+            drv.__enter__()
+            drv.mac = H.pattern(6, seed, 5)
+            chunks = []
+            for i, k in enumerate(kinds):
+                c = ble.ad(0xFF if i else 0x16, H.pattern(2 + i, seed, 30 + i))
+                chunks.append(bytearray(c) if k == "ba" else bytes(c))
+            keep = [bytes(c) for c in chunks]
+            arg = container(chunks)
+            fails = []
+            for rnd in range(4):
+                amark = len(w.airlog)
+                try:
+                    drv.advertise(arg)
+                except (HarnessError, Abort):
+                    raise
+                except Exception as e:  # noqa
+                    fails.append(("repeat-exception:%s" % type(e).__name__, "advertise() #%d of the same %s raised %r" % (rnd + 1, container.__name__, e)))
+                    break
+                w.advance(1000000)
+                pkts = [p for p in w.airlog[amark:] if p.src is radio]
+                if len(pkts) != 1:
+                    fails.append(("tx-count", "%d packets for advertise() #%d" % (len(pkts), rnd + 1)))
+                    break
+                got = judge_packet(pkts[0].payload, pkts[0].ch, bytes(drv.mac), bytes(drv.mac), [], b"".join(keep))
+                if got:
+                    fails.append(("repeat-" + got[0][0], "advertise() #%d of the same %s: %s" % (rnd + 1, container.__name__, got[0][1])))
+                    break
+                if [bytes(c) for c in chunks] != keep:
+                    fails.append(("repeat-caller-chunks-modified", "the caller's chunk objects changed after advertise() #%d" % (rnd + 1)))
+                    break
+                drv.hop_channel()
+            rep.case()
+            rep.transitions += 4
+            rep.traces += 1
+            rep.outcome("repeat:%s:%s" % (container.__name__, "ok" if not fails else fails[0][0]))
+            rep.nt("repeat:%s:%s" % (container.__name__, "+".join(kinds)))
+            for clause, what in fails:
+                rep.violation("%s/%s" % (PID, clause), what, {"part": "repeat", "seed": seed})
+
+
 # --------------------------------------------------------------------------- work dispatch
 def work(item, rep):
     if item[0] == "history":
         return w_history(item, rep)
+    if item[0] == "repeat":
+        return w_repeat(item, rep)
     part, item_key, cases, seed = item
     do_cases(part, item_key, cases, seed, rep)
 
@@ -708,6 +784,8 @@ def run(tier, seed, rep, only=None):
     if not only or "history" in only:
         items = hist + items
     ncases = sum(len(it[2]) for it in items if it[0] != "history")
+    if not only or "repeat" in only:
+        items.append(("repeat", seed))
     pmap(work, items, rep)
     collapse(rep, PID)
     ordered = sorted(rep.outcomes.items())  # merge order of the workers must not show in the evidence
@@ -748,6 +826,12 @@ def replay(data):
     r = data["replay"]
     seed = r["seed"]
     fails = []
+    if r["part"] == "repeat":
+        from ..engine import Report
+        rp = Report()
+        w_repeat(("repeat", seed), rp)
+        want = data.get("signature")
+        return [(s_, v_["what"]) for s_, v_ in rp.violations.items() if want is None or s_ == want]
     if r["part"] == "history":
         st = hist_init(seed, r["variant"])
         f0, r0 = hist_probe(st, seed)
